@@ -25,6 +25,7 @@
 
 #include <vector>
 #include <string>
+#include <string_view>
 #include <tuple>
 #include <type_traits>
 
@@ -186,15 +187,46 @@ protected:
   template <class Value>
   void DoWriteScalar(const Value& val) {
     MakeScalarIfUnset();
-    wrt_.write("{}", val);
+    if constexpr (std::is_floating_point_v<Value>) {
+      // JSON has no inf/nan tokens
+      if (val != val)
+        wrt_.write("{}", "null");
+      else if (val - val != 0)
+        wrt_.write("{}", val > 0 ? "1e999" : "-1e999");
+      else
+        wrt_.write("{}", val);
+    } else {
+      wrt_.write("{}", val);
+    }
     ++n_written_;
   }
 
   template <class Str>
   void DoWriteString(const Str& val) {
     MakeScalarIfUnset();
-    wrt_.write("\"{}\"", val);
+    wrt_.write("\"{}\"", EscapeString(std::string_view(val)));
     ++n_written_;
+  }
+
+  /// Escape characters which cannot appear verbatim in a JSON string
+  static std::string EscapeString(std::string_view s) {
+    static const char hex[] = "0123456789abcdef";
+    std::string result;
+    result.reserve(s.size());
+    for (char ch: s) {
+      unsigned char c = static_cast<unsigned char>(ch);
+      if (c == '"' || c == '\\') {
+        result += '\\';
+        result += ch;
+      } else if (c < 0x20) {
+        result += "\\u00";
+        result += hex[c >> 4];
+        result += hex[c & 15];
+      } else {
+        result += ch;
+      }
+    }
+    return result;
   }
 
 private:
